@@ -17,6 +17,7 @@ func init() {
 			}
 			checkNameSinks(c, p, R, "C15.R1")
 			runPersist(c, p, R, map[string]string{"C09.R3": "C15.R1"})
+			checkStoredEventsNotRewritten(c, p, "C15.R1")
 			c.Floor("C15.R1", "stored-type comparisons", c.Stats["stored_type_comparisons"], 1)
 			c.Floor("C15.R1", "typed register arguments", c.Stats["typed_register_args"], 2)
 			checkTypeNamerImpl(c, p, "C15.R2", PkgState, []string{"ChangeMessage", "ControlMessage"})
